@@ -181,3 +181,123 @@ theorem mem_constsOf (alts : List Alt) (s : Str) : s ∈ constsOf alts ↔ Alt.c
   | cons a r ih => cases a <;> simp [constsOf, ih]
 
 end Oas3.Codec
+
+namespace Oas3.Codec
+/-! lifting of the rejection half, and of the acceptance half through `oneOf` -/
+
+theorem validAlt_mono (a : Alt) (d : J) (h : validAlt false a d = true) : validAlt true a d = true := by
+  cases a with
+  | const v => simpa [validAlt] using h
+  | null => simpa [validAlt] using h
+  | sch s => simpa [validAlt] using valid_mono s d (by simpa [validAlt] using h)
+  | free k => cases k <;> simpa [validAlt] using h
+
+/-- where a variant of the emitted enum comes from -/
+theorem mem_unionTy (fname : Str → Str) (vname : J → Str) (alts : List Alt) (v : UVar) (h : v ∈ unionTy fname vname alts) :
+    (∃ w, v = .unit w ∧ Alt.const w ∈ alts) ∨ (∃ s, v = .newtype (typeOf fname vname s) ∧ Alt.sch s ∈ alts) ∨
+    (v = .value ∧ ∃ k, Alt.free k ∈ alts) := by
+  induction alts with
+  | nil => simp [unionTy] at h
+  | cons a r ih =>
+    cases a with
+    | const w =>
+      simp only [unionTy, List.mem_cons] at h
+      rcases h with rfl | h
+      · exact Or.inl ⟨w, rfl, by simp⟩
+      · rcases ih h with ⟨w', e, m⟩ | ⟨s, e, m⟩ | ⟨e, k, m⟩
+        · exact Or.inl ⟨w', e, by simp [m]⟩
+        · exact Or.inr (Or.inl ⟨s, e, by simp [m]⟩)
+        · exact Or.inr (Or.inr ⟨e, k, by simp [m]⟩)
+    | null =>
+      simp only [unionTy] at h
+      rcases ih h with ⟨w', e, m⟩ | ⟨s, e, m⟩ | ⟨e, k, m⟩
+      · exact Or.inl ⟨w', e, by simp [m]⟩
+      · exact Or.inr (Or.inl ⟨s, e, by simp [m]⟩)
+      · exact Or.inr (Or.inr ⟨e, k, by simp [m]⟩)
+    | sch s0 =>
+      simp only [unionTy, List.mem_cons] at h
+      rcases h with rfl | h
+      · exact Or.inr (Or.inl ⟨s0, rfl, by simp⟩)
+      · rcases ih h with ⟨w', e, m⟩ | ⟨s, e, m⟩ | ⟨e, k, m⟩
+        · exact Or.inl ⟨w', e, by simp [m]⟩
+        · exact Or.inr (Or.inl ⟨s, e, by simp [m]⟩)
+        · exact Or.inr (Or.inr ⟨e, k, by simp [m]⟩)
+    | free k0 =>
+      simp only [unionTy, List.mem_cons] at h
+      rcases h with rfl | h
+      · exact Or.inr (Or.inr ⟨rfl, k0, by simp⟩)
+      · rcases ih h with ⟨w', e, m⟩ | ⟨s, e, m⟩ | ⟨e, k, m⟩
+        · exact Or.inl ⟨w', e, by simp [m]⟩
+        · exact Or.inr (Or.inl ⟨s, e, by simp [m]⟩)
+        · exact Or.inr (Or.inr ⟨e, k, by simp [m]⟩)
+
+/-- the REJECTION half lifts through a union (oneOf and anyOf) of schema and `null` alternatives: if the property holds for every
+alternative on `doc` and `doc` is valid against none of them, not even leniently, the union refuses `doc` -/
+theorem union_rejects_lift (fname : Str → Str) (vname : J → Str) (oneOf : Bool) (alts : List Alt) (doc : J)
+    (hshape : ∀ a ∈ alts, a.isConst = false ∧ ∀ k, a ≠ .free k)
+    (hgood : ∀ s, Alt.sch s ∈ alts → judge s (typeOf fname vname s) doc = true)
+    (hinv : ∀ a ∈ alts, validAlt true a doc = false) :
+    rtU (unionTy fname vname alts) doc = none ∧ judgeU oneOf alts (unionTy fname vname alts) doc = true := by
+  have hnone : rtU (unionTy fname vname alts) doc = none := by
+    rw [rtU_none_iff]
+    intro v hv
+    rcases mem_unionTy fname vname alts v hv with ⟨w, _, m⟩ | ⟨s, e, m⟩ | ⟨_, k, m⟩
+    · have := (hshape _ m).1; simp [Alt.isConst] at this
+    · subst e
+      have hj := hgood s m
+      have hi : valid true s doc = false := by simpa [validAlt] using hinv _ m
+      simp only [judge, judgeRun, hi, Bool.false_eq_true, if_false, Bool.and_eq_true] at hj
+      simpa [rtVar] using hj.2
+    · exact absurd rfl ((hshape _ m).2 k)
+  refine ⟨hnone, ?_⟩
+  have hstrict : ∀ a ∈ alts, validAlt false a doc = false := by
+    intro a ha
+    cases h : validAlt false a doc with
+    | false => rfl
+    | true => have := validAlt_mono a doc h; rw [hinv a ha] at this; exact absurd this (by simp)
+  have hcount : matchCount false alts doc = 0 := by
+    simp only [matchCount, List.length_eq_zero_iff, List.filter_eq_nil_iff]
+    intro a ha; simp [hstrict a ha]
+  have hany : alts.any (fun a => validAlt true a doc) = false := by
+    simp only [List.any_eq_false]
+    intro a ha; simp [hinv a ha]
+  cases oneOf <;> simp [judgeU, judgeRunU, hnone, validU, hcount, hany]
+
+
+theorem matchCount_single (pre post : List Alt) (s : S) (d : J) (hv : valid false s d = true)
+    (ho : ∀ a ∈ pre ++ post, validAlt false a d = false) : matchCount false (pre ++ .sch s :: post) d = 1 := by
+  have h1 : pre.filter (fun a => validAlt false a d) = [] :=
+    List.filter_eq_nil_iff.mpr (fun a ha => by simp [ho a (by simp [ha])])
+  have h2 : post.filter (fun a => validAlt false a d) = [] :=
+    List.filter_eq_nil_iff.mpr (fun a ha => by simp [ho a (by simp [ha])])
+  have h3 : validAlt false (.sch s) d = true := by simpa [validAlt] using hv
+  simp only [matchCount, List.filter_append, List.filter_cons, h3, if_true, h1, h2]
+  simp
+
+/-- lifting through `oneOf`: as for `anyOf`, and the re-encoded document must not have become valid against another alternative -/
+theorem union_lift_oneOf (fname : Str → Str) (vname : J → Str) (pre post : List Alt) (s : S) (doc : J)
+    (hv : valid false s doc = true) (hj : judge s (typeOf fname vname s) doc = true)
+    (hpre : ∀ u ∈ unionTy fname vname pre, rtVar u doc = none)
+    (hothers : ∀ a ∈ pre ++ post, validAlt false a doc = false)
+    (hout : ∀ out, rt (typeOf fname vname s) doc = some out → ∀ a ∈ pre ++ post, validAlt false a out = false) :
+    judgeU true (pre ++ .sch s :: post) (unionTy fname vname (pre ++ .sch s :: post)) doc = true := by
+  have hl := union_lift fname vname pre post s doc hpre
+  simp only [judge, judgeRun, hv, if_true] at hj
+  cases hr : rt (typeOf fname vname s) doc with
+  | none => simp [hr] at hj
+  | some out =>
+    simp only [hr, Bool.and_eq_true] at hj hl
+    have hmem : Alt.sch s ∈ pre ++ .sch s :: post := by simp
+    have hany : (pre ++ Alt.sch s :: post).any (fun a => validAlt true a doc) = true :=
+      List.any_eq_true.mpr ⟨.sch s, hmem, by simpa [validAlt] using valid_mono s doc hv⟩
+    have c1 := matchCount_single pre post s doc hv hothers
+    have c2 := matchCount_single pre post s out hj.1.1 (hout out hr)
+    simp only [judgeU, judgeRunU, hl, validU, if_true, c1, c2, beq_self_eq_true, hany, Bool.and_true, Bool.true_and, List.all_eq_true]
+    intro a ha
+    rcases List.mem_append.mp ha with ha | ha
+    · simp [hothers a (by simp [ha])]
+    · rcases List.mem_cons.mp ha with rfl | ha
+      · simp [sameAlt, hj.1.2]
+      · simp [hothers a (by simp [ha])]
+
+end Oas3.Codec
